@@ -366,6 +366,11 @@ var solvers = map[string]solverSpec{
 	"z3-new-a2": {"z3-new", func(f string, t time.Duration) []string {
 		return []string{fmt.Sprintf("-T:%d", int(t.Seconds())), "smt.arith.solver=2", "-smt2", f}
 	}},
+	// for goals about segments of byte slices (quantifiers with explicit triggers only): e-matching alone, case splits
+	// in assertion order - decides in a second what the default configuration does not decide in a minute
+	"z3-new-q": {"z3-new", func(f string, t time.Duration) []string {
+		return []string{fmt.Sprintf("-T:%d", int(t.Seconds())), "smt.auto_config=false", "smt.mbqi=false", "smt.case_split=3", "-smt2", f}
+	}},
 	"z3": {"z3", func(f string, t time.Duration) []string {
 		return []string{fmt.Sprintf("-T:%d", int(t.Seconds())), "-smt2", f}
 	}},
@@ -426,6 +431,10 @@ func solve(o *Obligation, timeout time.Duration, portfolio []string) {
 		os.WriteFile(files[i], []byte(o.Query(false)), 0o644)
 	}
 	o.Level = 0
+	segments := false
+	if b, err := os.ReadFile(files[0]); err == nil && (bytes.Contains(b, []byte("(forall ((sj_")) || bytes.Contains(b, []byte("(forall ((aj_"))) {
+		segments = true
+	}
 	type res struct {
 		lvl    int
 		solver string
@@ -442,6 +451,9 @@ func solve(o *Obligation, timeout time.Duration, portfolio []string) {
 		// z3 4.8.12 on the small query: its nonlinear core decides some product/monomial goals at once
 		// on which 5.1.0 wanders (and the other way round for wrap-around goals)
 		racers = append(racers, racer{"z3", 1})
+		if segments {
+			racers = append(racers, racer{"z3-new-q", 1})
+		}
 	}
 	ctx, cancel := context.WithCancel(context.Background())
 	ch := make(chan res, len(racers))
